@@ -18,6 +18,14 @@ CHECKS = {
    text="Directory.tla is a state machine with one action per handler and Set* method. TLC checks it (UniqueUserDNs, CodesOK and the action properties AddFound/DeleteGone/ModifyMissing) and, through a history variable, enumerates every operation sequence of length 2 (thorough 3) over a pool of users, a group and new DNs, plus -simulate behaviours of length 12 (thorough 30). Each behaviour is replayed on real plain and TLS test directories by two alternating clients; after every operation all pool DNs are searched. The recorded trace (arguments, result code, search results) is validated by TLC against Dir20Trace, whose actions are the Directory actions with the logged arguments (ReplyConforms, SearchConforms, NotStuck).",
    note="Trusts: DN pool is ASCII and substring-free (precondition of the property); attributes compared as sets of (name, bag of values), values as plain or BER-wrapped; replace only generated for existing attributes.",
    technique="TLA+ state machine Directory.tla/Dir20.tla model-checked with TLC; TLC-generated behaviours replayed on the real testdirectory; recorded traces validated by TLC trace spec Dir20Trace"),
+"C14": dict(level=MC, design="DESIGN.md §3.4, §7 C14",
+   text="Ctl.tla gives every control value constructible through the exported API (46 values over symbolic sizes/cookies/counters), gldap's Encode as an abstract wire form and decodeControl / a conforming client as Decode; TLC checks RoundTrip and the Behera constructor's validation (BeheraDesign). TLC emits every list of <=2 controls (thorough: + triples over a reduced set) and every Behera option combination; each list is built with gldap's API (fresh objects and re-used objects mutated through exported fields), sent in gldap's own encoding as request controls and set on Bind and SearchDone responses; the handler's decoded view, the harness's strict parse and go-ldap's DecodeControl are validated by TLC (CtlTrace) against the spec. Complete within the alphabets.",
+   note="Trusts: data independence of the control codec in field values beyond the enumerated boundary symbols (0, mid, max; empty/binary/long strings); go-ldap's view is skipped for the one shape on which go-ldap v3.4.6 itself panics (Behera without value).",
+   technique="TLA+ spec Ctl.tla model-checked with TLC; TLC-generated control lists replayed through the real encoder/decoder in both directions; observations validated by TLC trace spec CtlTrace"),
+ "C16": dict(level=MC, design="DESIGN.md §3.5, §7 C16",
+   text="Helpers.tla describes ConvertString/readLength over byte-string forms (tag x length form x length octets present x content length class), the SID helpers, NewEntry ordering and every constructor / Mux registration method over sequences of option tokens (nil and foreign-family options included) with their two possible outcomes (value or error). TLC checks the design statements (WrapConverts, BeheraAtMostOne), emits all vectors (25k quick with <=2 options, 640k thorough with <=3), the harness calls the real functions under recover() (Request-based constructors inside a handler on a live connection, each response also written) and TLC (HelpersTrace) checks NoPanic, OutcomeConforms and ValueConforms on every observation.",
+   note="Trusts: contents of byte strings are random per seed (the code does not branch on them); option values are one or two representatives per option.",
+   technique="TLA+ spec Helpers.tla checked with TLC; TLC-generated call vectors executed on the real exported API; observations validated by TLC trace spec HelpersTrace"),
 }
 NOT_YET = "check not built yet (work in progress)"
 
